@@ -739,8 +739,9 @@ class Stats(object):
 
 
 class Engine(object):
-    def __init__(self, max_decisions=4000, nl_mode="defer", timeout_ms=60000, seed=0):
+    def __init__(self, max_decisions=4000, nl_mode="defer", timeout_ms=60000, seed=0, max_findings=12):
         self.max_decisions = max_decisions
+        self.max_findings = max_findings
         self.nl_mode = nl_mode  # 'defer' | 'exact'
         self.timeout_ms = timeout_ms
         self.seed = seed
@@ -1350,9 +1351,15 @@ class Engine(object):
         if r == z3.sat:
             m = self.last_model()
             basevals = self._model_to_base(m)
+            if self.deferred and self.stats.__dict__.get("requeries", 0) >= 3:
+                # enough candidates were already re-decided in this configuration: keep this one for the replay only
+                st.checks_sat += 1
+                self.findings.append(dict(check=name, inputs={k: str(v) for k, v in basevals.items()}, deferred=len(self.deferred), info=info, prefix=[], undecided=True))
+                return "sat"
             if self.deferred:
                 # the candidate lives on an over-approximated path (non-linear tests were forked without a
                 # feasibility check): re-decide WITH the deferred constraints and their definitions (nlsat budget)
+                st.__dict__["requeries"] = st.__dict__.get("requeries", 0) + 1
                 rr, bv = self._requery_deferred(za, znot)
                 if rr == "unsat":
                     st.__dict__["spurious_discharged_with_deferred"] = st.__dict__.get("spurious_discharged_with_deferred", 0) + 1
@@ -1440,6 +1447,9 @@ class Engine(object):
                     st.gaps.append(str(e))
             except BoundExceeded as e:
                 st.gaps.append("bound exceeded: %s" % e)
+            if len(self.findings) >= self.max_findings:
+                st.gaps.append("stopped after %d candidate counter-examples (%d work items not explored)" % (len(self.findings), len(self.work)))
+                break
             if st.paths >= max_paths:
                 if self.work:
                     st.gaps.append("max_paths reached with %d work items left" % len(self.work))
